@@ -227,15 +227,19 @@ def c15(report, rng, tier, findings):
     # The implementation builds the real operand form; oracle and model get the flattened explicit twin.
     ocases = []
     tries = 0
-    while len(ocases) < max(60, n // 2) and tries < 40 * n:
+    while len(ocases) < max(60, n) and tries < 40 * n:
         tries += 1
-        cfg = gen.Cfg(n_vars=(2, 2), n_objs=(2, 4), depth=1, empty_domain=0.0, preds=False, share_domain=0.5)
+        cfg = gen.Cfg(n_vars=(2, 2), n_objs=(2, 5), depth=1, empty_domain=0.0, preds=False, share_domain=0.5,
+                      int_range=(0, 2))
         base = gen.gen_case(rng, cfg, f'o{tries}')
         base['vars'] = [(vid, 'A', raw) for vid, _, raw in base['vars']]
         x, z = 0, 1
         gz = gen.CondGen(rng, cfg, [z])
         gx = gen.CondGen(rng, cfg, [x])
-        inner = [gz.atom() for _ in range(rng.choice((1, 1, 2)))]
+        # the sub-query's own condition: atoms, or a small and/or/not tree (several solutions per disjunct)
+        r_in = rng.random()
+        inner = [gz.atom() for _ in range(rng.choice((1, 1, 2)))] if r_in < 0.35 else \
+            [('or', gz.atom(), gz.atom())] if r_in < 0.7 else [gz.cond(rng.randint(1, 2))]
         quant = rng.choice(('an', 'an', 'the'))
         if quant == 'the':
             try:
@@ -245,8 +249,15 @@ def c15(report, rng, tier, findings):
             if k != 1:
                 continue
         sq = ('subq', quant, z) + tuple(inner)
-        shape = rng.choice(('attr', 'attr', 'obj'))
-        if shape == 'attr':
+        shape = rng.choice(('attr', 'attr', 'obj', 'expr', 'expr'))
+        if shape == 'expr':
+            # the sub-query SELECTS AN EXPRESSION: x.a op an(entity(z.a, inner))
+            f = rng.choice('ab')
+            sqe = ('subq', quant, ('attr', f, ('var', z))) + tuple(inner)
+            op = rng.choice(('eq', 'ne', 'lt', 'ge'))
+            atom_i = ('cmp', op, ('attr', 'a', ('var', x)), sqe)
+            atom_e = ('cmp', op, ('attr', 'a', ('var', x)), ('attr', f, ('var', z)))
+        elif shape == 'attr':
             op = rng.choice(('eq', 'ne', 'lt', 'ge'))
             atom_i = ('cmp', op, ('attr', 'a', ('var', x)), ('attr', 'a', sq))
             atom_e = ('cmp', op, ('attr', 'a', ('var', x)), ('attr', 'a', ('var', z)))
@@ -261,7 +272,7 @@ def c15(report, rng, tier, findings):
         case = dict(base)
         case.update({'sel': [('var', x)], 'entity': True, 'cond': [atom_i] + extra,
                      'explicit': {**base, 'sel': [('var', x)], 'entity': True, 'cond': inner + [atom_e] + extra},
-                     'operand_quant': quant})
+                     'operand_quant': quant + ('_selecting_an_expression' if shape == 'expr' else '')})
         ocases.append(case)
 
     class OJ(QueryJudge):
